@@ -202,9 +202,12 @@ func c02Blob(rng *vh.Rand, min, max uint64, n int) ([]byte, string) {
 func c02Triple(rng *vh.Rand) (uint64, uint64, uint64) {
 	min := uint64(48 + rng.Intn(150))
 	var avg, max uint64
-	switch rng.Intn(6) {
+	switch rng.Intn(7) {
 	case 0: // min == avg == max
 		return min, min, min
+	case 6: // max far above avg (more than 10*avg: the read-ahead buffer must still be sized by max)
+		avg = min + uint64(rng.Intn(20))
+		max = avg * uint64(11+rng.Intn(30))
 	case 1:
 		avg = min
 		max = min + uint64(rng.Intn(300))
@@ -218,7 +221,7 @@ func c02Triple(rng *vh.Rand) (uint64, uint64, uint64) {
 func c02Seq(a vh.Args, o *vh.Oracle, r *vh.Result, c *c02Case) error {
 	blob := vh.UnHex(c.BlobHex)
 	desync.Digest = desync.SHA512256{}
-	d := desync.VerifDiscriminator(c.Avg)
+	d := c02D(o, c.Avg)
 	full, _, err := seqChunks(bytes.NewReader(blob), c.Min, c.Avg, c.Max)
 	if err != nil {
 		return err
@@ -289,6 +292,24 @@ func c02Seq(a vh.Args, o *vh.Oracle, r *vh.Result, c *c02Case) error {
 }
 
 func u(x uint64) string { return strconv.FormatUint(x, 10) }
+
+// c02D: the discriminator for avg by casync's formula as modelled (Model/Discriminator.v); the
+// implementation's own value is compared with it in c02DiscSweep and here.
+func c02D(o *vh.Oracle, avg uint64) uint32 {
+	impl := desync.VerifDiscriminator(avg)
+	if o == nil || avg >= 9000000 {
+		return impl
+	}
+	ans, err := o.Call("c02.disc", u(avg))
+	if err != nil {
+		return impl
+	}
+	v, err := strconv.ParseUint(ans, 10, 64)
+	if err != nil {
+		return impl
+	}
+	return uint32(v)
+}
 
 // c02Islands puts a few short non-zero stretches (1..max/2 bytes) into an all-zero blob.
 func c02Islands(rng *vh.Rand, blob []byte, max int) {
@@ -363,7 +384,7 @@ func c02Par(a vh.Args, o *vh.Oracle, r *vh.Result, c *c02Case, attempts int) err
 	}
 	r.Sample(map[string]interface{}{"kind": "par", "min": c.Min, "avg": c.Avg, "max": c.Max, "len": len(blob), "chunks": len(seq), "n": c.N, "shape": c.Shape})
 	if o != nil && c.Sched%5 == 0 {
-		d := desync.VerifDiscriminator(c.Avg)
+		d := c02D(o, c.Avg)
 		ans, err := o.Call("c02.impl", u(c.Min), u(c.Max), u(uint64(d)), "-", "0", vh.Hex(blob))
 		if err != nil {
 			return err
@@ -402,6 +423,9 @@ func runC02(a vh.Args, o *vh.Oracle, r *vh.Result) error {
 		return c02Seq(a, o, r, &c)
 	}
 	rng := vh.NewRand(a.Seed)
+	if err := c02DiscSweep(o, r, rng, 3000); err != nil {
+		return err
+	}
 	nseq, npar := 150, 320
 	if a.Tier == "thorough" {
 		nseq, npar = 1500, 5000
